@@ -441,13 +441,11 @@ def Op.adds : Op → Nat
   | _ => 0
 
 /-- side conditions under which the on-disk format can represent what an operation does: the entry count of a snapshot
-stays within `load`'s sanity bound, and every deadline is a plausible epoch-millisecond value (representable as a
-`system_clock::time_point`, before the year ~2300) -/
+stays within `load`'s sanity bound, and the `time_point` handed to `expireAt` is representable (`≤ kMaxPlausibleEpochMs`, which after
+the FC12b repair is the last millisecond a `system_clock::time_point` holds).  TTLs need no side condition: the deadline saturates. -/
 def StepOK (cfg : Cfg) (w : W) (op : Op) : Prop :=
   w.mem.kv.length + op.adds ≤ cfg.lim.snapCountMax ∧
   (match op with
-   | .setTtl _ _ ttl => w.now + ttl * 1000 ≤ cfg.lim.maxPlausible
-   | .setBatchTtl _ ttl => w.now + ttl * 1000 ≤ cfg.lim.maxPlausible
    | .expireAt _ t => t ≤ cfg.lim.maxPlausible
    | _ => True)
 
@@ -516,9 +514,17 @@ theorem FInv.set (cfg : Cfg) (w : W) (hf : FInv cfg w) (k : Key) (v : Val)
       have := length_put_le w.mem.kv k v
       omega
 
+/-- the saturated TTL deadline is always a plausible (persistable, representable) expiry -/
+theorem deadlineAfter_plausible (l : Lim) (hl : l.OK) (now ttl : Int) (hn : 0 < now) (ht : ¬ ttl ≤ 0) :
+    plausible l (deadlineAfter l now ttl) = true ∧ deadlineAfter l now ttl ≤ l.maxPlausible := by
+  unfold plausible sentinel deadlineAfter
+  simp only [Bool.and_eq_true, bne_iff_ne, ne_eq, decide_eq_true_eq]
+  have := hl.plausPos
+  omega
+
 /-- `set` with a TTL -/
 theorem FInv.setTtl (cfg : Cfg) (hl : cfg.lim.OK) (w : W) (hf : FInv cfg w) (k : Key) (v : Val) (ttl : Int)
-    (hc : w.mem.kv.length + 1 ≤ cfg.lim.snapCountMax) (ht : w.now + ttl * 1000 ≤ cfg.lim.maxPlausible) :
+    (hc : w.mem.kv.length + 1 ≤ cfg.lim.snapCountMax) :
     FInv cfg (opSetTtl cfg w k v ttl).1 := by
   unfold opSetTtl
   by_cases h0 : ttl ≤ 0
@@ -528,18 +534,14 @@ theorem FInv.setTtl (cfg : Cfg) (hl : cfg.lim.OK) (w : W) (hf : FInv cfg w) (k :
     | some e => exact hf
     | none =>
       have hk := validate_none' hv
-      have hpos := hf.pos
-      have hpl : plausible cfg.lim (w.now + ttl * 1000) = true := by
-        unfold plausible sentinel
-        simp only [Bool.and_eq_true, bne_iff_ne, ne_eq, decide_eq_true_eq]
-        omega
+      obtain ⟨hpl, hle⟩ := deadlineAfter_plausible cfg.lim hl w.now ttl hf.pos h0
       simp only [armTimer]
       apply FInv.maybeCompact
-      · apply FInv.write cfg w hf _ (.setE k v (w.now + ttl * 1000)) ⟨hk.1, hk.2.1, hk.2.2, hpl⟩
+      · apply FInv.write cfg w hf _ (.setE k v (deadlineAfter cfg.lim w.now ttl)) ⟨hk.1, hk.2.1, hk.2.2, hpl⟩
         · intro k' hne; rw [look_updateCache, look_setE]; simp only [Rec.key] at hne; simp [hne]
         · intro x _; rw [look_updateCache, look_setE]; simp [Rec.key, applyKey]; exact Eqv.refl _ _
         · exact valid_put cfg w.mem k v hf.valid hk
-        · exact plaus_put cfg w.mem k _ hf.plaus ht
+        · exact plaus_put cfg w.mem k _ hf.plaus hle
         · exact Map.nodup_put _ _ _ hf.nodup
       · simp only [writeLog_mem, updateCache_kv]
         have := length_put_le w.mem.kv k v
@@ -886,7 +888,7 @@ theorem setBatchTtl_memOK (cfg : Cfg) (e : Int) (he : e ≤ cfg.lim.maxPlausible
 theorem FInv.memOK (cfg : Cfg) (w : W) (hf : FInv cfg w) : MemOK cfg w.mem := ⟨hf.valid, hf.plaus, hf.nodup⟩
 
 /-- `setBatch(batch)` -/
-theorem FInv.setBatch (cfg : Cfg) (w : W) (hf : FInv cfg w) (hi : MemInv w.mem) (kvs : List (Key × Val))
+theorem FInv.setBatch (cfg : Cfg) (w : W) (hf : FInv cfg w) (hi : MemInv w.mem) (hz : CacheOff cfg w.mem) (kvs : List (Key × Val))
     (hc : w.mem.kv.length + kvs.length ≤ cfg.lim.snapCountMax) : FInv cfg (opSetBatch cfg w kvs).1 := by
   unfold opSetBatch
   split
@@ -895,7 +897,7 @@ theorem FInv.setBatch (cfg : Cfg) (w : W) (hf : FInv cfg w) (hi : MemInv w.mem) 
     | true => exact hf
     | false =>
       simp only [Bool.false_eq_true, ↓reduceIte]
-      obtain ⟨_, hlook⟩ := setBatch_mem cfg kvs hb w.mem hi
+      obtain ⟨_, hlook⟩ := setBatch_mem cfg kvs hb w.mem hi hz
       obtain ⟨hok, hlen⟩ := setBatch_memOK cfg kvs hb w.mem (hf.memOK)
       obtain ⟨hm, hn⟩ := foldl_writeLog_mem cfg (fun x : Key × Val => Rec.set x.1 x.2) kvs
         { w with mem := kvs.foldl (fun (m : Mem) x =>
@@ -912,8 +914,8 @@ theorem FInv.setBatch (cfg : Cfg) (w : W) (hf : FInv cfg w) (hi : MemInv w.mem) 
       · rw [hm]; exact Nat.le_trans hlen hc
 
 /-- `setBatch(batch, ttl)` -/
-theorem FInv.setBatchTtl (cfg : Cfg) (w : W) (hf : FInv cfg w) (hi : MemInv w.mem) (kvs : List (Key × Val)) (ttl : Int)
-    (hc : w.mem.kv.length + kvs.length ≤ cfg.lim.snapCountMax) (ht : w.now + ttl * 1000 ≤ cfg.lim.maxPlausible) :
+theorem FInv.setBatchTtl (cfg : Cfg) (hl : cfg.lim.OK) (w : W) (hf : FInv cfg w) (hi : MemInv w.mem) (hz : CacheOff cfg w.mem)
+    (kvs : List (Key × Val)) (ttl : Int) (hc : w.mem.kv.length + kvs.length ≤ cfg.lim.snapCountMax) :
     FInv cfg (opSetBatchTtl cfg w kvs ttl).1 := by
   unfold opSetBatchTtl
   by_cases h0 : ttl ≤ 0
@@ -925,28 +927,24 @@ theorem FInv.setBatchTtl (cfg : Cfg) (w : W) (hf : FInv cfg w) (hi : MemInv w.me
       | true => exact hf
       | false =>
         simp only [Bool.false_eq_true, ↓reduceIte]
-        have hpos := hf.pos
-        have hpl : plausible cfg.lim (w.now + ttl * 1000) = true := by
-          unfold plausible sentinel
-          simp only [Bool.and_eq_true, bne_iff_ne, ne_eq, decide_eq_true_eq]
-          omega
-        obtain ⟨_, hlook⟩ := setBatchTtl_mem cfg (w.now + ttl * 1000) kvs hb w.mem hi
-        obtain ⟨hok, hlen⟩ := setBatchTtl_memOK cfg (w.now + ttl * 1000) ht kvs hb w.mem (hf.memOK)
-        obtain ⟨hm, hn⟩ := foldl_writeLog_mem cfg (fun x : Key × Val => Rec.setE x.1 x.2 (w.now + ttl * 1000)) kvs
+        obtain ⟨hpl, hle⟩ := deadlineAfter_plausible cfg.lim hl w.now ttl hf.pos h0
+        obtain ⟨_, hlook⟩ := setBatchTtl_mem cfg (deadlineAfter cfg.lim w.now ttl) kvs hb w.mem hi hz
+        obtain ⟨hok, hlen⟩ := setBatchTtl_memOK cfg (deadlineAfter cfg.lim w.now ttl) hle kvs hb w.mem (hf.memOK)
+        obtain ⟨hm, hn⟩ := foldl_writeLog_mem cfg (fun x : Key × Val => Rec.setE x.1 x.2 (deadlineAfter cfg.lim w.now ttl)) kvs
           { w with mem := kvs.foldl (fun (m : Mem) x =>
             let (id, m) := armTimer m
-            updateCache cfg { m with kv := m.kv.put x.1 x.2, expiry := m.expiry.put x.1 ⟨w.now + ttl * 1000, id, false⟩ } x.1 x.2
-              (some (w.now + ttl * 1000))) w.mem }
+            updateCache cfg { m with kv := m.kv.put x.1 x.2, expiry := m.expiry.put x.1 ⟨deadlineAfter cfg.lim w.now ttl, id, false⟩ } x.1 x.2
+              (some (deadlineAfter cfg.lim w.now ttl))) w.mem }
         have hall := batchBad_all cfg.lim kvs hb
         apply FInv.maybeCompact
         · refine ⟨by rw [hn]; exact hf.pos, by rw [hm]; exact hok.valid, by rw [hm]; exact hok.plaus, by rw [hm]; exact hok.nodup, ?_⟩
           obtain ⟨ents, rs, hd, he⟩ := hf.file
-          refine ⟨ents, rs ++ kvs.map (fun x => Rec.setE x.1 x.2 (w.now + ttl * 1000)),
-            foldl_writeLog_fs cfg (fun x : Key × Val => Rec.setE x.1 x.2 (w.now + ttl * 1000)) kvs
+          refine ⟨ents, rs ++ kvs.map (fun x => Rec.setE x.1 x.2 (deadlineAfter cfg.lim w.now ttl)),
+            foldl_writeLog_fs cfg (fun x : Key × Val => Rec.setE x.1 x.2 (deadlineAfter cfg.lim w.now ttl)) kvs
               (fun x hx => ⟨(hall x hx).1, (hall x hx).2.1, (hall x hx).2.2, hpl⟩) ents _ rs hd, ?_⟩
           intro k
           rw [rep_append_list, hn, hm, hlook]
-          exact eqv_fold_setE cfg.lim w.now k (w.now + ttl * 1000) kvs _ _ (he k)
+          exact eqv_fold_setE cfg.lim w.now k (deadlineAfter cfg.lim w.now ttl) kvs _ _ (he k)
         · rw [hm]; exact Nat.le_trans hlen hc
 
 theorem foldKey_dels (l : Lim) (k : Key) (ks : List Key) :
@@ -1275,6 +1273,8 @@ open Iora
 structure Inv (cfg : Cfg) (w : W) : Prop where
   mem : MemInv w.mem
   file : FInv cfg w
+  /-- `maxCacheSize == 0`: the cache is never filled -/
+  cacheOff : CacheOff cfg w.mem
 
 theorem FInv.resetTr (cfg : Cfg) (w : W) (hf : FInv cfg w) : FInv cfg { w with tr := [] } :=
   ⟨hf.pos, hf.valid, hf.plaus, hf.nodup, hf.file⟩
@@ -1288,9 +1288,9 @@ theorem step_finv (cfg : Cfg) (hl : cfg.lim.OK) (w : W) (hi : Inv cfg w) (op : O
   unfold step
   cases op with
   | set k v => exact FInv.set cfg _ hf k v hc
-  | setTtl k v ttl => exact FInv.setTtl cfg hl _ hf k v ttl hc ht
-  | setBatch kvs => exact FInv.setBatch cfg _ hf him kvs hc
-  | setBatchTtl kvs ttl => exact FInv.setBatchTtl cfg _ hf him kvs ttl hc ht
+  | setTtl k v ttl => exact FInv.setTtl cfg hl _ hf k v ttl hc
+  | setBatch kvs => exact FInv.setBatch cfg _ hf him hi.cacheOff kvs hc
+  | setBatchTtl kvs ttl => exact FInv.setBatchTtl cfg hl _ hf him hi.cacheOff kvs ttl hc
   | get k => exact FInv.get cfg _ hf k
   | remove k => exact FInv.remove cfg _ hf k (by simp only [Op.adds] at hc; exact hc)
   | removeWithPrefix p =>
@@ -1314,10 +1314,10 @@ theorem step_ok (cfg : Cfg) (hl : cfg.lim.OK) (w : W) (hi : Inv cfg w) (op : Op)
     have hf := FInv.resetTr cfg w hi.file
     have him : MemInv ({ w with tr := [] } : W).mem := hi.mem
     obtain ⟨a, _, c, d⟩ := reopen_ok cfg hl _ him hf
-    exact ⟨⟨a, hfin⟩, c, d⟩
+    exact ⟨⟨a, hfin, cacheOff_step cfg w hi.cacheOff .reopen⟩, c, d⟩
   · have hne : op ≠ .reopen := fun h => hre ⟨(), h⟩
-    obtain ⟨a, b, c⟩ := step_mem_ok cfg w hi.mem op hne
-    exact ⟨⟨a, hfin⟩, b, c⟩
+    obtain ⟨a, b, c⟩ := step_mem_ok cfg w hi.mem hi.cacheOff op hne
+    exact ⟨⟨a, hfin, cacheOff_step cfg w hi.cacheOff op⟩, b, c⟩
 
 /-- side conditions along a history -/
 def RunOK (cfg : Cfg) : W → List Op → Prop
@@ -1351,7 +1351,7 @@ theorem init_eq (cfg : Cfg) (now : Int) (ch : List Nat) :
 theorem init_inv (cfg : Cfg) (now : Int) (hn : 0 < now) (ch : List Nat) : Inv cfg (W.init cfg now ch) := by
   rw [init_eq]
   have hli : LInv (sweep now {}) := LInv.sweep _ _ LInv.init
-  refine ⟨MemInv.memOfLoad _ _ hli, ⟨hn, ?_, ?_, hli.nodupKv, ?_⟩⟩
+  refine ⟨MemInv.memOfLoad _ _ hli, ⟨hn, ?_, ?_, hli.nodupKv, ?_⟩, fun _ => rfl⟩
   · intro k v h; simp [memOfLoad, sweep] at h
   · intro k e h; simp [memOfLoad, sweep, armAll] at h
   · refine ⟨[], [], ⟨.inl ⟨rfl, rfl⟩, by simp, Nat.zero_le _, rfl, by simp⟩, ?_⟩
